@@ -53,3 +53,14 @@ func VerifHostDirty(host *Host) bool {
 	defer host.MACEntry.Row.RUnlock()
 	return host.dirty
 }
+
+// VerifMinute, when set by a test harness before NewSession, replaces the one minute period of the
+// session's purge ticker.
+var VerifMinute time.Duration
+
+func verifTicker(t *time.Ticker) *time.Ticker {
+	if VerifMinute > 0 {
+		t.Reset(VerifMinute)
+	}
+	return t
+}
